@@ -354,3 +354,56 @@ Proof.
   change (if obs then later_obs latest else later_deltas latest) with (later_of obs latest).
   apply (Hre s Hs).
 Qed.
+
+(* the same with the hypotheses as a [Forall] over the securities of the input,
+   one statement per mode *)
+Corollary roundtrip_simple_app regof latest rows0 :
+  Forall (sec_hyps regof false latest rows0) (securities rows0) ->
+  app_history_ok exact (Summary.number_from 0 rows0) = true
+  /\ app_roundtrip exact false latest false (Summary.number_from 0 rows0) = true
+  /\ app_roundtrip exact true latest false (Summary.number_from 0 rows0) = true.
+Proof.
+  intros H. rewrite Forall_forall in H. destruct (roundtrip_app regof false latest rows0 H) as [H1 H2].
+  split; [exact H1|]. split; apply H2.
+Qed.
+
+Corollary roundtrip_annual_app regof latest rows0 :
+  Forall (sec_hyps regof true latest rows0) (securities rows0) ->
+  app_history_ok exact (Summary.number_from 0 rows0) = true
+  /\ app_roundtrip exact false latest true (Summary.number_from 0 rows0) = true
+  /\ app_roundtrip exact true latest true (Summary.number_from 0 rows0) = true.
+Proof.
+  intros H. rewrite Forall_forall in H. destruct (roundtrip_app regof true latest rows0 H) as [H1 H2].
+  split; [exact H1|]. split; apply H2.
+Qed.
+
+(* ================================================================ H. step (b) on its own, any arithmetic, both modes *)
+(* the summary of the application is the concatenation of the per-security
+   summaries, in the order of the run (increasing security number) *)
+Theorem app_summary_decomposes A latest annual rows :
+  let R := fun s => sec_result_of A None (txs_of_sec s (sort_txs rows)) in
+  let SL := securities (sort_txs rows) in
+  run_app A [] rows = Ok (map (fun s => (s, R s)) SL)
+  /\ ((forall s, In s SL -> exists x, make_summary A latest (fst (R s)) annual = Ok x) ->
+      all_summaries A latest annual (map (fun s => (s, R s)) SL) = Ok (flat_map (sum_of A R latest annual) SL)
+      /\ forall s, In s SL ->
+           make_summary A latest (fst (R s)) annual = Ok (sum_of A R latest annual s)
+           /\ (Forall (fun d => t_sec (d_tx d) = s) (fst (R s)) ->
+               Forall (fun t => t_sec t = s) (sum_of A R latest annual s))).
+Proof.
+  intros R SL. split; [apply run_app_none|]. intros H. split; [apply all_summaries_map; exact H|].
+  intros s Hs. destruct (H s Hs) as [x Hx]. unfold sum_of. rewrite Hx. split; [reflexivity|].
+  intros Hd. exact (make_summary_sec A s latest _ annual x Hd Hx).
+Qed.
+
+(* the re-run of (any rows [sums] ++ later rows) computes for security [s], up
+   to read indices, what the rows of [s] among [sums] followed by the later
+   rows of [s] alone give *)
+Theorem app_rerun_per_security A s latest sums rows0 :
+  erase_result (sec_result_of A None
+                  (txs_of_sec s (sort_txs (number (sums ++ rows_after latest (number rows0))))))
+  = erase_result (sec_run A (number (txs_of_sec s sums ++ rows_after latest (number (txs_of_sec s rows0))))).
+Proof.
+  rewrite app_sec_result. apply sec_run_up_to_ri.
+  rewrite txs_of_sec_app, !map_app. f_equal. unfold number. apply later_rows_of_sec.
+Qed.
